@@ -14,7 +14,8 @@ from .csrc import ExtractError
 
 # rules whose case body is translated into the IR and proved equal to the Op.step case in Peg/TieSkel.lean
 IR_RULES = ["RULE_IF", "RULE_IFNOT", "RULE_NOT", "RULE_DROP", "RULE_ONLY_TAGS", "RULE_SUB", "RULE_ACCUMULATE", "RULE_CAPTURE",
-            "RULE_POSITION", "RULE_CONSTANT", "RULE_GROUP", "RULE_NTH", "RULE_ERROR", "RULE_BETWEEN", "RULE_TO", "RULE_THRU", "RULE_TIL", "RULE_CHOICE", "RULE_SEQUENCE", "RULE_LENPREFIX", "RULE_SPLIT", "RULE_REPLACE", "RULE_MATCHTIME", "RULE_NCHAR", "RULE_NOTNCHAR", "RULE_LINE", "RULE_COLUMN", "RULE_ARGUMENT"]
+            "RULE_POSITION", "RULE_CONSTANT", "RULE_GROUP", "RULE_NTH", "RULE_ERROR", "RULE_BETWEEN", "RULE_TO", "RULE_THRU", "RULE_TIL", "RULE_CHOICE", "RULE_SEQUENCE", "RULE_LENPREFIX", "RULE_SPLIT", "RULE_REPLACE", "RULE_MATCHTIME", "RULE_NCHAR", "RULE_NOTNCHAR", "RULE_LINE", "RULE_COLUMN", "RULE_ARGUMENT",
+            "RULE_LITERAL", "RULE_RANGE", "RULE_SET", "RULE_LOOK", "RULE_GETTAG", "RULE_BACKMATCH", "RULE_CAPTURE_NUM", "RULE_UNREF"]
 
 
 class Unsupported(Exception):
@@ -256,6 +257,12 @@ class Extract:
         self.arr = {}                 # JanetArray under construction: name -> dict(n=, cs=)
         self.posalias = {}            # int32_t x = PTR - s->text_start  -> pointer index
         self.lc = {}                  # LineCol x = get_linecol_from_position(s, posalias) -> pointer index
+        self.wexpr = {}               # alias -> WE source for masked operand words (`uint8_t lo = rule[1] & 0xFF`)
+        self.ptroff = {}              # pointer local -> k while `p += ((int32_t *)rule)[k]` is in force (undone by `p -= ...[k]`)
+        self.bitword = {}             # `uint32_t word = rule[B + (P[O] >> 5)]`   -> (B, P, O)
+        self.bitmask = {}             # `uint32_t mask = (uint32_t)1 << (P[O] & 0x1F)` -> (P, O)
+        self.strof = {}               # `const uint8_t *bytes = janet_unwrap_string(v)` -> val index
+        self.dbl = set()              # `double x` out-parameters of janet_scan_number_base (kept as value locals)
 
     def clone(self):
         e = Extract()
@@ -265,6 +272,10 @@ class Extract:
         e.argsbase = dict(self.argsbase)
         e.numdef, e.lencap, e.valdef = dict(self.numdef), dict(self.lencap), dict(self.valdef)
         e.arr = {k: dict(v) for k, v in self.arr.items()}
+        e.wexpr, e.ptroff, e.bitword, e.bitmask = dict(self.wexpr), dict(self.ptroff), dict(self.bitword), dict(self.bitmask)
+        e.strof, e.dbl = dict(self.strof), set(self.dbl)
+        if hasattr(self, "signed_word"):
+            e.signed_word = set(self.signed_word)
         return e
 
     # -- expressions
@@ -306,11 +317,37 @@ class Extract:
         toks = unparen(toks)
         if len(toks) == 1 and toks[0] in self.clamped:
             return "(.clamp %d)" % self.word[toks[0]]
+        if len(toks) == 1 and toks[0] in self.wexpr:
+            return self.wexpr[toks[0]]
+        s = " ".join(toks)
+        if re.fullmatch(r"\d+", s):
+            return "(.lit %s)" % s
+        m = re.fullmatch(r"rule \[ (\d+) \] & 0[xX][fF][fF]", s) or re.fullmatch(r"0[xX][fF][fF] & rule \[ (\d+) \]", s)
+        if m:
+            return "(.byteOf %s 0)" % m.group(1)
+        m = re.fullmatch(r"\( rule \[ (\d+) \] >> (\d+) \) & 0[xX][fF][fF]", s)
+        if m:
+            return "(.byteOf %s %s)" % (m.group(1), m.group(2))
+        m = re.fullmatch(r"rule \[ (\d+) \] & 0[xX]([137fF])", s)
+        if m:
+            return "(.lowBits %s %d)" % (m.group(1), {"1": 1, "3": 2, "7": 3, "f": 4, "F": 4}[m.group(2)])
         return "(.op %d)" % self.word_k(toks)
+
+    def is_word(self, name):
+        return name in self.word or name in self.wexpr
+
+    def tmp_num(self, key):
+        """numeric temporary holding a value read inside a condition (one per distinct read expression)"""
+        name = "%rd:" + key
+        if name not in self.num:
+            self.num[name] = len(self.num)
+        return self.num[name]
 
     def ptr_of(self, toks):
         toks = unparen(toks)
         if len(toks) == 1 and toks[0] in self.ptr:
+            if toks[0] in self.ptroff:
+                raise Unsupported("pointer `%s` used while displaced by a signed operand" % toks[0])
             return self.ptr[toks[0]]
         raise Unsupported("pointer expression `%s`" % " ".join(toks))
 
@@ -348,6 +385,9 @@ class Extract:
         m = re.fullmatch(r"s -> captures -> data \[ (\w+) \. cap \+ (\w+) \]", s)
         if m and m.group(1) in self.cs:
             return "(.capAt %d %s)" % (self.cs[m.group(1)], self.we([m.group(2)]))
+        m = re.fullmatch(r"s -> tagged_captures -> data \[ (\w+) \]", s)
+        if m and m.group(1) in self.num:
+            return "(.taggedAt %d)" % self.num[m.group(1)]
         raise Unsupported("value expression `%s`" % s)
 
     def cond(self, toks):
@@ -411,7 +451,88 @@ class Extract:
         return r
 
     def atom(self, toks):
+        """one comparison; text reads / memcmp / number scanning inside it become statements executed just before it
+        (`('pre', [stmts], atom)`), at the place where C evaluates them (the caller splits `&&` / `||` into nested ifs)"""
+        pre = []
+        toks = unparen(list(toks))
+        # byte reads `P[d]`
+        out, i = [], 0
+        while i < len(toks):
+            if (toks[i] in self.ptr and toks[i] not in self.ptroff and i + 3 < len(toks) and toks[i + 1] == "[" and
+                    re.fullmatch(r"\d+", toks[i + 2]) and toks[i + 3] == "]" and not (i > 0 and toks[i - 1] in (".", "->"))):
+                n = self.tmp_num("%d[%s]" % (self.ptr[toks[i]], toks[i + 2]))
+                pre.append(".readByte %d %d %s" % (n, self.ptr[toks[i]], toks[i + 2]))
+                out.append("%rd:" + "%d[%s]" % (self.ptr[toks[i]], toks[i + 2]))
+                i += 4
+            else:
+                out.append(toks[i])
+                i += 1
+        toks = out
+        r = self.atom0(toks, pre)
+        return ('pre', pre, r) if pre else r
+
+    def atom0(self, toks, pre):
+        if len(toks) > 3 and toks[0] in ("memcmp", "janet_scan_number_base") and toks[1] == "(" and toks[-1] == ")":
+            # normalise redundant parentheses around the arguments
+            toks = [toks[0], "("] + [t for j, a in enumerate(split_args(toks[2:-1])) for t in ([","] if j else []) + a] + [")"]
         s = " ".join(toks)
+        W = r"([%\w:\[\]]+)"
+        # memcmp(P, rule + B, LEN) / memcmp(P, BYTES, LEN) as a truth value
+        m = re.fullmatch(r"memcmp \( (\w+) , rule \+ (\d+) , (\w+) \)", s)
+        if m and m.group(1) in self.ptr and m.group(1) not in self.ptroff and self.is_word(m.group(3)):
+            n = self.tmp_num("memcmp")
+            pre.append(".cmpLit %d %d %s %s" % (n, self.ptr[m.group(1)], m.group(2), self.we([m.group(3)])))
+            return ".numNZ %d" % n
+        m = re.fullmatch(r"memcmp \( (\w+) , (\w+) , (\w+) \)", s)
+        if m and m.group(1) in self.ptr and m.group(1) not in self.ptroff and m.group(2) in self.strof and m.group(3) in self.num \
+                and self.numdef.get(m.group(3)) == ("strLen", self.strof[m.group(2)]):
+            n = self.tmp_num("memcmp")
+            pre.append(".cmpVal %d %d %d %d" % (n, self.ptr[m.group(1)], self.strof[m.group(2)], self.num[m.group(3)]))
+            return ".numNZ %d" % n
+        m = re.fullmatch(r"janet_scan_number_base \( (\w+) , (\w+) - (\w+) , (\w+) , & (\w+) \)", s)
+        if m and m.group(1) == m.group(3) and m.group(1) in self.ptr and m.group(2) in self.ptr and m.group(4) in self.word \
+                and m.group(5) in self.dbl and m.group(1) not in self.ptroff:
+            n = self.tmp_num("scan")
+            pre.append(".scanNum %d %d %d %d %d" % (n, self.val[m.group(5)], self.ptr[m.group(1)], self.ptr[m.group(2)],
+                                                      self.word[m.group(4)]))
+            return ".numNZ %d" % n
+        m = re.fullmatch(r"(\w+) & (\w+)", s)
+        if m and m.group(1) in self.bitword and m.group(2) in self.bitmask and self.bitword[m.group(1)][1:] == self.bitmask[m.group(2)]:
+            b, p_, o = self.bitword[m.group(1)]
+            if p_ in self.ptroff:
+                raise Unsupported("condition `%s`" % s)
+            n = self.tmp_num("%d[%s]" % (self.ptr[p_], o))
+            pre.append(".readByte %d %d %s" % (n, self.ptr[p_], o))
+            return ".bitSet %d %d" % (b, n)
+        m = re.fullmatch(r"(\w+) (<|>=) s -> text_end", s)
+        if m and m.group(1) in self.ptr and m.group(1) not in self.ptroff:
+            c = ".ptrLtEnd %d" % self.ptr[m.group(1)]
+            return c if m.group(2) == "<" else ('not', c)
+        m = re.fullmatch(r"(\w+) (<|>) s -> (text_start|text_end)", s)
+        if m and m.group(1) in self.ptroff and (m.group(2), m.group(3)) in (("<", "text_start"), (">", "text_end")):
+            return ".%s %d %d" % ("offLtStart" if m.group(2) == "<" else "offGtEnd", self.ptr[m.group(1)], self.ptroff[m.group(1)])
+        m = re.fullmatch(W + r" (>=|<=|>|<) (\w+)", s)
+        if m and m.group(1) in self.num and m.group(1).startswith("%rd:") and self.is_word(m.group(3)):
+            n, w, op = self.num[m.group(1)], self.we([m.group(3)]), m.group(2)
+            if op == ">":
+                return ".numGtWord %d %s" % (n, w)
+            if op == "<":
+                return ".numLtWord %d %s" % (n, w)
+            if op == ">=":
+                return ('not', ".numLtWord %d %s" % (n, w))
+            return ('not', ".numGtWord %d %s" % (n, w))
+        m = re.fullmatch(r"s -> tags -> data \[ (\w+) \] (==|!=) (.*)", s)
+        if m and m.group(1) in self.num:
+            c = ".tagAtEq %d %s" % (self.num[m.group(1)], self.we(m.group(3).split(" ")))
+            return c if m.group(2) == "==" else ('not', c)
+        m = re.fullmatch(r"janet_checktype \( (\w+) , JANET_STRING \)", s)
+        if m and m.group(1) in self.val:
+            return ".valIsString %d" % self.val[m.group(1)]
+        m = re.fullmatch(r"(\w+) \+ (\w+) > s -> text_end", s)
+        if m and m.group(1) in self.ptr and m.group(1) not in self.ptroff and m.group(2) in self.num:
+            return ".ptrPlusNumGtEnd %d %d" % (self.ptr[m.group(1)], self.num[m.group(2)])
+        if any(t in self.ptroff for t in toks):
+            raise Unsupported("condition `%s` on a displaced pointer" % s)
         for pat, neg_ in ((r"(\w+) == NULL", False), (r"NULL == (\w+)", False), (r"(\w+) != NULL", True), (r"NULL != (\w+)", True)):
             m = re.fullmatch(pat, s)
             if m and m.group(1) in self.ptr:
@@ -475,10 +596,67 @@ class Extract:
     # -- statements
     def simple(self, toks):
         """-> list of IR statement strings"""
+        raw = " ".join(t for t in toks if t != "const")
+        m = re.fullmatch(r"(\w+) (\+|-) = \( \( int32_t \* \) rule \) \[ (\d+) \]", raw)
+        if m and m.group(1) in self.ptr:
+            # `p += off; ... ; p -= off;` with the same signed operand: the pointer is tracked as (p, pending offset)
+            name, k_ = m.group(1), int(m.group(3))
+            if m.group(2) == "+" and name not in self.ptroff:
+                self.ptroff[name] = k_
+                return []
+            if m.group(2) == "-" and self.ptroff.get(name) == k_:
+                del self.ptroff[name]
+                return []
+            raise Unsupported("statement `%s`" % raw)
         toks = strip_casts(toks)
         s = " ".join(toks)
         if not toks:
             return []
+        m = re.fullmatch(r"(uint8_t|uint32_t|int32_t|int) (\w+) = (.*&.*)", s)
+        if m:
+            try:
+                e = self.we(m.group(3).split(" "))
+            except Unsupported:
+                e = None
+            if e is not None and (e.startswith("(.byteOf") or (e.startswith("(.lowBits") and m.group(1) != "uint8_t")):
+                self.wexpr[m.group(2)] = e
+                return []
+        m = re.fullmatch(r"uint32_t (\w+) = rule \[ (\d+) \+ \( (\w+) \[ (\d+) \] >> 5 \) \]", s)
+        if m and m.group(3) in self.ptr:
+            self.bitword[m.group(1)] = (int(m.group(2)), m.group(3), m.group(4))
+            return []
+        m = re.fullmatch(r"uint32_t (\w+) = 1 << \( (\w+) \[ (\d+) \] & 0[xX]1[fF] \)", s)
+        if m and m.group(2) in self.ptr:
+            self.bitmask[m.group(1)] = (m.group(2), m.group(3))
+            return []
+        m = re.fullmatch(r"double (\w+) = 0(?: \. 0)?", s)
+        if m:
+            if m.group(1) not in self.val:
+                self.val[m.group(1)] = len(self.val)
+            self.dbl.add(m.group(1))
+            return []
+        m = re.fullmatch(r"uint8_t \* (\w+) = janet_unwrap_string \( (\w+) \)", s)
+        if m and m.group(2) in self.val:
+            self.strof[m.group(1)] = self.val[m.group(2)]
+            return []
+        m = re.fullmatch(r"int32_t (\w+) = janet_string_length \( (\w+) \)", s)
+        if m and m.group(2) in self.strof:
+            if m.group(1) not in self.num:
+                self.num[m.group(1)] = len(self.num)
+            self.numdef[m.group(1)] = ("strLen", self.strof[m.group(2)])
+            return [".numDef %d (.strLen %d)" % (self.num[m.group(1)], self.strof[m.group(2)])]
+        m = re.fullmatch(r"int32_t (\w+) = s -> tags -> count", s)
+        if m:
+            if m.group(1) not in self.num:
+                self.num[m.group(1)] = len(self.num)
+            self.numdef[m.group(1)] = ("tagCount",)
+            return [".numDef %d .tagCount" % self.num[m.group(1)]]
+        m = re.fullmatch(r"int32_t (\w+) = (\w+)", s)
+        if m and m.group(2) in self.num and not m.group(2).startswith("%"):
+            if m.group(1) not in self.num:
+                self.num[m.group(1)] = len(self.num)
+            self.numdef.pop(m.group(1), None)
+            return [".numDef %d (.copy %d)" % (self.num[m.group(1)], self.num[m.group(2)])]
         if s == "down1 ( s )":
             return [".down"]
         if s in ("up1 ( s )", "( up1 ( s ) )"):
@@ -489,6 +667,10 @@ class Extract:
             self.new_ptr(toks[2])
             return []
         if len(toks) == 2 and toks[1] == "++" and toks[0] in self.ptr:
+            if toks[0] in self.ptroff:
+                raise Unsupported("statement `%s`" % s)
+            self.bitword.clear()
+            self.bitmask.clear()
             return [".ptrInc %d" % self.ptr[toks[0]]]
         if len(toks) == 2 and toks[1] == "++" and toks[0] in self.num:
             return [".numDef %d (.succ %d)" % (self.num[toks[0]], self.num[toks[0]])]
@@ -587,6 +769,10 @@ class Extract:
                 self.valdef[name] = e
                 return [".valDef %d %s" % (self.val[name], e)]
             if (ty == "uint8_t" and star) or (ty is None and name in self.ptr):
+                self.bitword.clear()
+                self.bitmask.clear()
+                if name in self.ptroff:
+                    raise Unsupported("statement `%s`" % s)
                 if rs == "NULL":
                     return [".ptrNull %d" % self.new_ptr(name)]
                 if rs == "s -> text_end":
@@ -596,6 +782,9 @@ class Extract:
                     args = split_args(rhs[2:-1])
                     if len(args) != 3 or args[0] != ["s"]:
                         raise Unsupported("call `%s`" % rs)
+                    if len(args[2]) == 1 and args[2][0] in self.ptroff:
+                        return [".callOff %d %s %d %d" % (self.new_ptr(name), self.rule_e(args[1]), self.ptr[args[2][0]],
+                                                          self.ptroff[args[2][0]])]
                     re_, at = self.rule_e(args[1]), self.ptr_of(args[2])
                     m3 = re.fullmatch(r"\(\.op (\d+)\)", re_)
                     if m3:
@@ -633,6 +822,8 @@ class Extract:
                 v = self.val[wrapped.group(1)]
             elif len(args[1]) == 1 and args[1][0] in self.val:
                 v = self.val[args[1][0]]
+            elif re.fullmatch(r"janet_wrap_number \( (\w+) \)", " ".join(args[1])) and args[1][2] in self.dbl:
+                v = self.val[args[1][2]]
             else:
                 v = len(self.val)
                 self.val["%tmp" + str(v)] = v
@@ -663,6 +854,59 @@ def cond_lean(c):
     return "(%s)" % c
 
 
+def has_pre(c):
+    return isinstance(c, tuple) and (c[0] == 'pre' or any(has_pre(x) for x in c[1:]))
+
+
+def branch(c, a, b):
+    """`if (c) a else b`.  A condition that reads the text (or calls memcmp / the number scanner) is split along `&&` / `||` / `!`
+    into nested ifs with the read placed right before the comparison that needs it (C's evaluation order); any other condition
+    stays one `.ite` with no negation at the top."""
+    if not has_pre(c):
+        if isinstance(c, tuple) and c[0] == 'not':
+            c, a, b = c[1], b, a
+        return "(.ite %s %s %s)" % (cond_lean(c), a, b)
+    if isinstance(c, tuple):
+        if c[0] == 'not':
+            return branch(c[1], b, a)
+        if c[0] == 'and':
+            return branch(c[1], branch(c[2], a, b), b)
+        if c[0] == 'or':
+            return branch(c[1], a, branch(c[2], a, b))
+        if c[0] == 'pre':
+            out = branch(c[2], a, b)
+            for st in reversed(c[1]):
+                out = "(.seq (%s) %s)" % (st, out)
+            return out
+    return "(.ite %s %s %s)" % (cond_lean(c), a, b)
+
+
+_PAIRS = (
+    (r"s -> tags -> data \[ (\w+) \] = s -> tags -> data \[ (\w+) \]",
+     r"s -> tagged_captures -> data \[ (\w+) \] = s -> tagged_captures -> data \[ (\w+) \]", ".tagMove %d %d"),
+    (r"s -> tags -> count = (\w+)", r"s -> tagged_captures -> count = (\w+)", ".tagSetCount %d"),
+)
+
+
+def tag_pair(st, nxt, ex):
+    """the tags buffer and the tagged-captures array are ONE list of pairs in the model: an assignment to one must be followed
+    (or preceded) by the same assignment to the other"""
+    if st[0] != 'simple':
+        return None
+    s = " ".join(strip_casts(st[1]))
+    for pa, pb, fmt in _PAIRS:
+        for x, y in ((pa, pb), (pb, pa)):
+            m = re.fullmatch(x, s)
+            if m:
+                if nxt is None or nxt[0] != 'simple':
+                    raise Unsupported("statement `%s` without its counterpart on the other tag array" % s)
+                m2 = re.fullmatch(y, " ".join(strip_casts(nxt[1])))
+                if not m2 or m2.groups() != m.groups() or any(g not in ex.num for g in m.groups()):
+                    raise Unsupported("statement `%s` without its counterpart on the other tag array" % s)
+                return fmt % tuple(ex.num[g] for g in m.groups())
+    return None
+
+
 def conv(stmts, ex, end=".fall", loops=None):
     """statement list (+ the rest of the case / of the loop body) -> Prog source; `end` = the leaf reached when the list runs
     out (`.fall` at the end of a case, `.cont` at the end of a loop body); `loops` collects (body, rest) of every loop"""
@@ -673,6 +917,9 @@ def conv(stmts, ex, end=".fall", loops=None):
     k = st[0]
     if k == 'block':
         return conv(list(st[1]) + rest, ex, end, loops)
+    tp = tag_pair(st, rest[0] if rest else None, ex)
+    if tp is not None:
+        return "(.seq (%s) %s)" % (tp, conv(rest[1:], ex, end, loops))
     if k == 'break':
         if end != ".cont":
             raise Unsupported("break outside a loop")
@@ -698,6 +945,31 @@ def conv(stmts, ex, end=".fall", loops=None):
         kk = int(re.fullmatch(r"\(\.const (\d+)\)", ex.valdef[consts[0]]).group(1))
         tail = conv(rest, ex, end, loops)
         return "(.seq (.valDef %d (.replaceOf %d %d)) %s)" % (ex.val[caps[0]], kk, ex.cs[css[0]], tail)
+    if k == 'for' and " ".join(st[3]) in ("%s --" % st[1][1] if len(st[1]) > 1 else "", "-- %s" % st[1][1] if len(st[1]) > 1 else ""):
+        # for (int32_t i = BOUND - 1; i >= 0; i--) body      ->  .downLoop i BOUND body rest
+        init, cnd, fbody = " ".join(strip_casts(st[1])), " ".join(strip_casts(st[2])), st[4]
+        m = re.fullmatch(r"int32_t (\w+) = s -> tags -> count - 1", init)
+        if not m or cnd != "%s >= 0" % m.group(1):
+            raise Unsupported("descending for header `%s ; %s`" % (init, cnd))
+        i = m.group(1)
+
+        def assigns(x):
+            if isinstance(x, tuple) and x and x[0] == 'simple':
+                t = x[1]
+                return any(t[j] == i and ((j + 1 < len(t) and t[j + 1] in ("=", "++", "--") and not (j + 2 < len(t) and t[j + 1] == "=" and t[j + 2] == "=")) or
+                                          (j > 0 and t[j - 1] in ("++", "--", "&"))) for j in range(len(t)))
+            if isinstance(x, (tuple, list)):
+                return any(assigns(y) for y in x if isinstance(y, (tuple, list)))
+            return False
+        if assigns(fbody):
+            raise Unsupported("loop counter `%s` assigned inside the loop" % i)
+        if i not in ex.num:
+            ex.num[i] = len(ex.num)
+        exb = ex.clone()
+        body = conv([fbody], exb, ".cont", loops)
+        after = conv(rest, exb, end, loops)
+        loops.append((body, after))
+        return "(.downLoop %d .tagCount LOOPBODY%d LOOPREST%d)" % (ex.num[i], len(loops) - 1, len(loops) - 1)
     if k == 'for':
         init, cnd, inc, fbody = st[1], st[2], st[3], st[4]
         pre = ex.simple(init)
@@ -740,9 +1012,13 @@ def conv(stmts, ex, end=".fall", loops=None):
             return ".retNull"
         if len(toks) == 1 and toks[0] in ex.ptr:
             return "(.ret %d)" % ex.ptr[toks[0]]
+        if len(toks) == 1 and toks[0] in ex.ptroff:
+            raise Unsupported("return of a displaced pointer")
         m = re.fullmatch(r"(\w+) \+ (\w+)", " ".join(toks))
-        if m and m.group(1) in ex.ptr and m.group(2) in ex.word:
+        if m and m.group(1) in ex.ptr and m.group(1) not in ex.ptroff and (m.group(2) in ex.word or re.fullmatch(r"\d+", m.group(2))):
             return "(.retPlus %d %s)" % (ex.ptr[m.group(1)], ex.we([m.group(2)]))
+        if m and m.group(1) in ex.ptr and m.group(1) not in ex.ptroff and m.group(2) in ex.num:
+            return "(.retPlusNum %d %d)" % (ex.ptr[m.group(1)], ex.num[m.group(2)])
         if toks == ["s", "->", "text_end"]:          # return s->text_end
             t = ex.new_ptr("%ret" + str(len(ex.ptr)))
             return "(.seq (.endSave %d) (.ret %d))" % (t, t)
@@ -751,9 +1027,7 @@ def conv(stmts, ex, end=".fall", loops=None):
             c = ex.cond(toks[:qi])
             a = conv([('return', toks[qi + 1:ci])], ex.clone(), end, loops)
             b = conv([('return', toks[ci + 1:])], ex.clone(), end, loops)
-            if isinstance(c, tuple) and c[0] == 'not':
-                c, a, b = c[1], b, a
-            return "(.ite %s %s %s)" % (cond_lean(c), a, b)
+            return branch(c, a, b)
         raise Unsupported("return expression `%s`" % " ".join(toks))
     if k == 'goto':
         if st[1] != "tail" or ex.pending_rule is None:
@@ -773,9 +1047,7 @@ def conv(stmts, ex, end=".fall", loops=None):
         c = ex.cond(st[1])
         a = conv([st[2]] + rest, ex.clone(), end, loops)
         b = conv(([st[3]] if st[3] is not None else []) + rest, ex.clone(), end, loops)
-        if isinstance(c, tuple) and c[0] == 'not':          # normalise: no negation at the top of a condition
-            c, a, b = c[1], b, a
-        return "(.ite %s %s %s)" % (cond_lean(c), a, b)
+        return branch(c, a, b)          # no negation at the top of a condition
     out = ex.simple(st[1])
     if out and out[-1].startswith("!"):
         tail = out[-1][1:]
